@@ -162,6 +162,11 @@ class ForOfIterator:
 class VM:
     """JavaScript virtual machine."""
 
+    # Script code run from inside a built-in (callbacks, accessors, conversions,
+    # call/apply, nested eval) recurses on the host stack; refuse to nest deeper
+    # than this instead of overflowing it
+    MAX_NATIVE_DEPTH = 48
+
     def __init__(
         self,
         memory_limit: Optional[int] = None,
@@ -176,6 +181,7 @@ class VM:
 
         self.start_time: Optional[float] = None
         self.instruction_count = 0
+        self.native_depth = 0  # nesting of script code run from built-ins
 
         # Exception handling
         self.exception: Optional[JSValue] = None
@@ -869,6 +875,12 @@ class VM:
         depth = len(self.call_stack)
         while self.exception_handlers and self.exception_handlers[-1][0] >= depth:
             self.exception_handlers.pop()
+
+    def _enter_native(self) -> None:
+        """Account for one more level of script code running inside a built-in."""
+        if self.native_depth >= self.MAX_NATIVE_DEPTH:
+            raise MemoryLimitError("Maximum nesting of script calls from built-ins exceeded")
+        self.native_depth += 1
 
     def _get_name(self, frame: CallFrame, index: int) -> str:
         """Get a name from the name table."""
@@ -1642,8 +1654,12 @@ class VM:
             func = func._original_func
 
         # Use existing invoke mechanism
-        self._invoke_js_function(func, args, this_val)
-        result = self._execute()
+        self._enter_native()
+        try:
+            self._invoke_js_function(func, args, this_val)
+            result = self._execute()
+        finally:
+            self.native_depth -= 1
         return result
 
     def _make_regexp_method(self, re: JSRegExp, method: str) -> Any:
@@ -2390,76 +2406,86 @@ class VM:
     ) -> JSValue:
         """Call a callback function synchronously and return the result."""
         if isinstance(callback, JSFunction):
-            # Save current stack position AND call stack depth
-            stack_len = len(self.stack)
-            call_stack_len = len(self.call_stack)
-
-            # Invoke the function
-            self._invoke_js_function(
-                callback, args, this_val if this_val is not None else UNDEFINED
-            )
-
-            # Execute until the call returns (back to original call stack depth)
-            while len(self.call_stack) > call_stack_len:
-                self._check_limits()
-                frame = self.call_stack[-1]
-                func = frame.func
-                bytecode = func.bytecode
-
-                if frame.ip >= len(bytecode):
-                    self.call_stack.pop()
-                    if len(self.stack) > stack_len:
-                        return self.stack.pop()
-                    return UNDEFINED
-
-                op = OpCode(bytecode[frame.ip])
-                frame.ip += 1
-
-                # Get argument if needed
-                arg = None
-                if op in (
-                    OpCode.JUMP,
-                    OpCode.JUMP_IF_FALSE,
-                    OpCode.JUMP_IF_TRUE,
-                    OpCode.TRY_START,
-                ):
-                    low = bytecode[frame.ip]
-                    high = bytecode[frame.ip + 1]
-                    arg = low | (high << 8)
-                    frame.ip += 2
-                elif op in (
-                    OpCode.LOAD_CONST,
-                    OpCode.LOAD_NAME,
-                    OpCode.STORE_NAME,
-                    OpCode.LOAD_LOCAL,
-                    OpCode.STORE_LOCAL,
-                    OpCode.LOAD_CLOSURE,
-                    OpCode.STORE_CLOSURE,
-                    OpCode.LOAD_CELL,
-                    OpCode.STORE_CELL,
-                    OpCode.CALL,
-                    OpCode.CALL_METHOD,
-                    OpCode.NEW,
-                    OpCode.BUILD_ARRAY,
-                    OpCode.BUILD_OBJECT,
-                    OpCode.BUILD_REGEX,
-                    OpCode.MAKE_CLOSURE,
-                    OpCode.TYPEOF_NAME,
-                ):
-                    arg = bytecode[frame.ip]
-                    frame.ip += 1
-
-                self._execute_opcode(op, arg, frame)
-
-            # Get result from stack
-            if len(self.stack) > stack_len:
-                return self.stack.pop()
-            return UNDEFINED
+            self._enter_native()
+            try:
+                return self._run_callback(callback, args, this_val)
+            finally:
+                self.native_depth -= 1
         elif callable(callback):
             result = callback(*args)
             return result if result is not None else UNDEFINED
         else:
             raise JSTypeError(f"{callback} is not a function")
+
+    def _run_callback(
+        self, callback: JSFunction, args: List[JSValue], this_val: JSValue = None
+    ) -> JSValue:
+        """Run a script function to completion in a nested loop (see _call_callback)."""
+        # Save current stack position AND call stack depth
+        stack_len = len(self.stack)
+        call_stack_len = len(self.call_stack)
+
+        # Invoke the function
+        self._invoke_js_function(
+            callback, args, this_val if this_val is not None else UNDEFINED
+        )
+
+        # Execute until the call returns (back to original call stack depth)
+        while len(self.call_stack) > call_stack_len:
+            self._check_limits()
+            frame = self.call_stack[-1]
+            func = frame.func
+            bytecode = func.bytecode
+
+            if frame.ip >= len(bytecode):
+                self.call_stack.pop()
+                if len(self.stack) > stack_len:
+                    return self.stack.pop()
+                return UNDEFINED
+
+            op = OpCode(bytecode[frame.ip])
+            frame.ip += 1
+
+            # Get argument if needed
+            arg = None
+            if op in (
+                OpCode.JUMP,
+                OpCode.JUMP_IF_FALSE,
+                OpCode.JUMP_IF_TRUE,
+                OpCode.TRY_START,
+            ):
+                low = bytecode[frame.ip]
+                high = bytecode[frame.ip + 1]
+                arg = low | (high << 8)
+                frame.ip += 2
+            elif op in (
+                OpCode.LOAD_CONST,
+                OpCode.LOAD_NAME,
+                OpCode.STORE_NAME,
+                OpCode.LOAD_LOCAL,
+                OpCode.STORE_LOCAL,
+                OpCode.LOAD_CLOSURE,
+                OpCode.STORE_CLOSURE,
+                OpCode.LOAD_CELL,
+                OpCode.STORE_CELL,
+                OpCode.CALL,
+                OpCode.CALL_METHOD,
+                OpCode.NEW,
+                OpCode.BUILD_ARRAY,
+                OpCode.BUILD_OBJECT,
+                OpCode.BUILD_REGEX,
+                OpCode.MAKE_CLOSURE,
+                OpCode.TYPEOF_NAME,
+            ):
+                arg = bytecode[frame.ip]
+                frame.ip += 1
+
+            self._execute_opcode(op, arg, frame)
+
+        # Get result from stack
+        if len(self.stack) > stack_len:
+            return self.stack.pop()
+        return UNDEFINED
 
     def _invoke_js_function(
         self,
